@@ -89,3 +89,117 @@ Proof. intros v; repeat split; reflexivity. Qed.
 Example attribution_nonvacuous :
   operand_ok (ptr 7) /\ operand_ok nil_lit /\ apply NEQ nil_lit (ptr 7) = Some (true, false, ptr 7).
 Proof. repeat split. Qed.
+
+(* ---------------- the expression layer ---------------- *)
+Definition checke := check conv inv not_swaps_gen loop_gen checkers_gen.
+Definition flat := run_flat conv inv loop_gen checkers_gen.
+
+Lemma not_swaps : not_swaps_gen = true.
+Proof. reflexivity. Qed.
+
+(* on a comparison of two atoms the expression layer is the atomic interpreter *)
+Lemma check_atoms : forall o x y, checke (ECmp o (EOp x) (EOp y)) = apply o x y.
+Proof. intros o [kx vx] [ky vy]; destruct o, kx, ky; reflexivity. Qed.
+
+Definition sound_val (v : Z) (r : res) : Prop :=
+  match r with
+  | Some (t, f, s) => (t = true -> v = 1 -> subject_nonnil s) /\ (f = true -> v = 0 -> subject_nonnil s)
+  | None => True
+  end.
+
+Definition shp_ok (sh : shape) (v : Z) : Prop :=
+  match sh with
+  | ShAtom k => operand_ok {| o_kind := k; o_val := v |}
+  | ShBool b => v = b2z b
+  | ShCond r => sound_val v r /\ (r <> None -> v = 0 \/ v = 1)
+  end.
+
+Ltac cmp_arith :=
+  repeat match goal with
+  | H : (_ =? _) = true |- _ => apply Z.eqb_eq in H
+  | H : (_ =? _) = false |- _ => apply Z.eqb_neq in H
+  | H : (_ <? _) = true |- _ => apply Z.ltb_lt in H
+  | H : (_ <? _) = false |- _ => apply Z.ltb_ge in H
+  | H : (_ <=? _) = true |- _ => apply Z.leb_le in H
+  | H : (_ <=? _) = false |- _ => apply Z.leb_gt in H
+  end.
+
+(* one comparison, whatever sound results its operands have *)
+Lemma flat_step : forall binop sa va sb vb,
+  shp_ok sa va -> shp_ok sb vb ->
+  sound_val (b2z (eval binop va vb)) (flat binop sa va sb vb).
+Proof.
+  intros binop sa va sb vb Ha Hb.
+  destruct sa as [ka|ba|[[[ta fa] sa]|]], sb as [kb|bb|[[[tb fb] sb]|]];
+    try destruct ka; try destruct kb; try destruct ba; try destruct bb; destruct binop;
+    match goal with |- sound_val _ ?R => let r := fresh "r" in set (r := R); vm_compute in r; subst r end;
+    try exact I.
+  all: unfold shp_ok, sound_val, operand_ok, subject_nonnil in *; cbn [o_kind o_val b2z eval] in *.
+  all: split; intros E1 E2; try discriminate;
+    unfold b2z in E2; match type of E2 with (if ?c then _ else _) = _ => destruct c eqn:E3; try discriminate end;
+    try rewrite negb_true_iff in E3; try rewrite negb_false_iff in E3; cmp_arith; try lia.
+  all: repeat match goal with
+       | H : (_ /\ _) /\ (Some _ <> None -> _) |- _ =>
+           let Ht := fresh "Ht" in let Hf := fresh "Hf" in let Hv := fresh "Hv" in
+           destruct H as [[Ht Hf] Hv]; specialize (Hv ltac:(discriminate))
+       end.
+  all: first [ apply Ht; [assumption|lia] | apply Hf; [assumption|lia] ].
+Qed.
+
+Lemma check_some_cond : forall e r, checke e = Some r -> is_cond e = true.
+Proof. intros [x|b|e|o a b] r H; try discriminate; reflexivity. Qed.
+
+Lemma ev_cond : forall e, is_cond e = true -> ev e = 0 \/ ev e = 1.
+Proof.
+  intros [x|b|e|o a b] H; try discriminate; cbn [ev].
+  - destruct b; auto.
+  - destruct (negb _); auto.
+  - destruct (eval _ _ _); auto.
+Qed.
+
+Lemma shape_of_ok : forall e, wf_expr e -> sound_val (ev e) (checke e) -> shp_ok (shape_of e (checke e)) (ev e).
+Proof.
+  intros [[k v]|b|e|o a b] W S; cbn [shape_of shp_ok]; auto;
+    (split; [exact S|]; intros N; apply ev_cond; reflexivity).
+Qed.
+
+(* Branch attribution for nested conditions: negations, comparisons with boolean constants, to any depth. *)
+Lemma branch_attribution_nested : forall e t f s,
+  wf_expr e -> checke e = Some (t, f, s) ->
+  (t = true -> ev e = 1 -> subject_nonnil s) /\ (f = true -> ev e = 0 -> subject_nonnil s).
+Proof.
+  assert (G : forall e, wf_expr e -> sound_val (ev e) (checke e)).
+  { induction e as [x|b|e IH|o a IHa b IHb]; intros W; try exact I.
+    - unfold checke in *; cbn [check]; rewrite not_swaps. specialize (IH W).
+      destruct (check _ _ _ _ _ e) as [[[t f] s]|] eqn:E; [|exact I].
+      cbn [swap_res sound_val ev] in *. destruct IH as [Ht Hf].
+      assert (C : ev e = 0 \/ ev e = 1) by (apply ev_cond; eapply check_some_cond; exact E).
+      split; intros E1 E2; [apply Hf|apply Ht]; auto;
+        destruct (ev e =? 1) eqn:E3; cbn in E2; try discriminate; cmp_arith; lia.
+    - destruct W as [Wa Wb]. specialize (IHa Wa). specialize (IHb Wb).
+      change (checke (ECmp o a b)) with (flat o (shape_of a (checke a)) (ev a) (shape_of b (checke b)) (ev b)).
+      cbn [ev]. apply flat_step; apply shape_of_ok; assumption. }
+  intros e t f s W H. specialize (G e W). rewrite H in G. exact G.
+Qed.
+
+Definition cmp o a b := ECmp o a b.
+Definition atom x := EOp x.
+
+(* every way of comparing a check with a boolean constant, in either operand order, and negations of it *)
+Lemma bool_const_spellings : forall v,
+  let c := cmp NEQ (atom (ptr v)) (atom nil_lit) in            (* p != nil *)
+  checke (cmp EQL c (EBool true)) = Some (true, false, ptr v) /\
+  checke (cmp EQL (EBool true) c) = Some (true, false, ptr v) /\
+  checke (cmp NEQ c (EBool false)) = Some (true, false, ptr v) /\
+  checke (cmp NEQ (EBool false) c) = Some (true, false, ptr v) /\
+  checke (cmp EQL c (EBool false)) = Some (false, true, ptr v) /\
+  checke (cmp NEQ (EBool true) c) = Some (false, true, ptr v) /\
+  checke (ENot (cmp EQL c (EBool false))) = Some (true, false, ptr v) /\
+  checke (cmp EQL (cmp NEQ (ENot c) (EBool true)) (EBool true)) = Some (true, false, ptr v).
+Proof. intros v; repeat split; reflexivity. Qed.
+
+Example nested_nonvacuous :
+  wf_expr (cmp EQL (cmp EQL (atom nil_lit) (atom (ptr 7))) (EBool false)) /\
+  checke (cmp EQL (cmp EQL (atom nil_lit) (atom (ptr 7))) (EBool false)) = Some (true, false, ptr 7) /\
+  ev (cmp EQL (cmp EQL (atom nil_lit) (atom (ptr 7))) (EBool false)) = 1.
+Proof. repeat split; cbn; auto. Qed.
